@@ -101,14 +101,12 @@ Definition merge_one (merged : list cstr) (c : cstr) : list cstr :=
 Definition merge_parent (own parent : list cstr) : list cstr := fold_left merge_one own parent.
 
 (* roleBase.getConstraints through the parent chain; [levels] = own constraint lists, the task
-   role first, the top-level role last.  The top-level role returns its own list unmerged. *)
+   role first, the top-level role last.  The top-level role merges its own list over the empty
+   list (repaired C05-e: an attribute it names twice collapses as in any other role). *)
 Fixpoint get_constraints (levels : list (list cstr)) : list cstr :=
   match levels with
   | [] => []
-  | l :: r => match r with
-              | [] => l
-              | _ => merge_parent l (get_constraints r)
-              end
+  | l :: r => merge_parent l (get_constraints r)
   end.
 
 (* BuildDescriptorConstraints: role constraints merged over the class constraints (if the class
@@ -401,7 +399,35 @@ Record task := mkTask {
   t_reuse : bool                   (* runs under the offer's first executor id *)
 }.
 
-Inductive alloc := AOk (pr : portres) (dyn : list (N * N)) | AFail | APanic.
+(* remainingResourcesInOffer.Subtract(a "ports" resource with the ranges rs), rs sorted and
+   squashed by the caller.  Subtract1 skips a resource that is empty or does not validate (a range
+   with begin > end); the ports resource is deleted when nothing is left. *)
+Definition subtract_ranges (pr : portres) (rs : ranges) : portres :=
+  match pr with
+  | None => None
+  | Some raw =>
+    match rs with
+    | [] => pr
+    | _ => if valid_ranges rs then
+             match fold_left (fun a r => rremove a (fst r) (snd r)) rs (renorm raw) with
+             | [] => None
+             | a => Some a
+             end
+           else pr
+    end
+  end.
+
+(* ... of a scalar resource (thousandths): an empty request is skipped, a resource that drops to
+   zero or below is deleted *)
+Definition subtract_scalar (rem : option N) (req : N) : option N :=
+  match rem with
+  | None => None
+  | Some c => if N.eqb req 0 then rem else if req <? c then Some (c - req) else None
+  end.
+
+(* AFail: no ports resource, or no port above the data cut-off is left: the task does not fit
+   (repaired C05-g: Ranges.Min is no longer called on an empty set) *)
+Inductive alloc := AOk (pr : portres) (dyn : list (N * N)) | AFail (pr : portres).
 
 (* the loop over wants.InboundChannels *)
 Fixpoint alloc_dyn (chans : list chan) (pr : portres) : alloc :=
@@ -410,10 +436,10 @@ Fixpoint alloc_dyn (chans : list chan) (pr : portres) : alloc :=
   | c :: r =>
     if ch_tcp c then
       match ports_of pr with
-      | None => AFail
+      | None => AFail pr
       | Some av =>
         match rmin (rremove av 0 data_port_floor) with
-        | None => APanic
+        | None => AFail pr
         | Some p =>
           match alloc_dyn r (subtract_port pr p) with
           | AOk pr' dyn => AOk pr' ((ch_name c, p) :: dyn)
@@ -424,88 +450,87 @@ Fixpoint alloc_dyn (chans : list chan) (pr : portres) : alloc :=
     else alloc_dyn r pr
   end.
 
-(* makeTaskForMesosResources.  MkEarly: gave up before the offer was taken out of the decline
-   set; MkLate: gave up after it (control port: no ports resource left). *)
-Inductive mkres := MkOk (pr : portres) (t : task) | MkEarly (pr : portres) | MkLate (pr : portres) | MkPanic.
+(* makeTaskForMesosResources on what is left of the offer (ports, cpus, mem).
+   MkFail pr: gave up, [pr] is what is left of the ports (cpus and mem untouched); the offer stays
+   in the decline set (repaired C05-f: it is taken out only when the task is complete).
+   The static ranges are claimed before any port is picked (repaired C05-c); the whole request is
+   subtracted from what is left once the task is complete (repaired C05-d). *)
+Inductive mkres := MkOk (pr : portres) (cpu mem : option N) (t : task) | MkFail (pr : portres).
 
 Definition span1 (p : N) : range := (p, p).
 
 Definition make_task (exec : N * N) (o : offer) (d : desc) (k : klass) (chans : list chan)
-           (pr : portres) : mkres :=
-  match alloc_dyn chans pr with
-  | APanic => MkPanic
-  | AFail => MkEarly None
+           (pr : portres) (cpu mem : option N) : mkres :=
+  match alloc_dyn chans (subtract_ranges pr (canon (k_static k))) with
+  | AFail pr1 => MkFail pr1
   | AOk pr1 dyn =>
     match ports_of pr1 with
-    | None => MkLate None
+    | None => MkFail pr1
     | Some av =>
       match rmin (rremove av 0 control_port_floor) with
-      | None => MkPanic
+      | None => MkFail pr1
       | Some cp =>
-        MkOk (subtract_port pr1 cp)
-             (mkTask d dyn cp (if k_controllable k then Some cp else None)
-                     (canon (k_static k ++ map (fun x => span1 (snd x)) dyn ++ [span1 cp]))
-                     (k_cpu k + fst exec) (k_mem k + snd exec)
-                     (0 <? o_execs o))
+        let t := mkTask d dyn cp (if k_controllable k then Some cp else None)
+                        (canon (k_static k ++ map (fun x => span1 (snd x)) dyn ++ [span1 cp]))
+                        (k_cpu k + fst exec) (k_mem k + snd exec)
+                        (0 <? o_execs o) in
+        MkOk (subtract_ranges (subtract_port pr1 cp) (t_req t))
+             (subtract_scalar cpu (t_cpu t)) (subtract_scalar mem (t_mem t)) t
       end
     end
   end.
 
 Inductive tryres := TNoC | TNoClass | TNoR | TMk (r : mkres).
 
-Definition try_desc (exec : N * N) (o : offer) (pr : portres) (d : desc) : tryres :=
+Definition try_desc (exec : N * N) (o : offer) (pr : portres) (cpu mem : option N) (d : desc) : tryres :=
   if negb (satisfy (o_attrs o) (d_constraints d)) then TNoC
   else match d_class d with
        | None => TNoClass
        | Some k =>
          let chans := merge_inbound (d_rbind d) (k_bind k) in
-         if negb (res_satisfy (o_cpu o) (o_mem o) pr (k_cpu k) (k_mem k) (k_static k) (Nlen chans))
+         if negb (res_satisfy cpu mem pr (k_cpu k) (k_mem k) (k_static k) (Nlen chans))
          then TNoR
-         else TMk (make_task exec o d k chans pr)
+         else TMk (make_task exec o d k chans pr cpu mem)
        end.
 
-(* state of one offer goroutine *)
+(* state of one offer goroutine: what is left of the offer, the tasks built so far *)
 Record ost := mkOst {
   s_rem : portres;
-  s_tasks : list task;        (* in launch order *)
-  s_undecl : bool;            (* taken out of the decline set *)
-  s_aband : bool              (* a task was abandoned after that point *)
+  s_cpu : option N;
+  s_mem : option N;
+  s_tasks : list task         (* in launch order *)
 }.
 
-(* FOR_PREMATCH_DESCRIPTORS: result (state, descriptors newly undeployable, panicked) *)
-Fixpoint prematch_loop (exec : N * N) (o : offer) (pm : list desc) (st : ost)
-  : ost * list desc * bool :=
+Definition st_fail (st : ost) (pr : portres) : ost := mkOst pr (s_cpu st) (s_mem st) (s_tasks st).
+Definition st_ok (st : ost) (pr : portres) (cpu mem : option N) (t : task) : ost :=
+  mkOst pr cpu mem (s_tasks st ++ [t]).
+Definition try_st (exec : N * N) (o : offer) (st : ost) (d : desc) : tryres :=
+  try_desc exec o (s_rem st) (s_cpu st) (s_mem st) d.
+
+(* FOR_PREMATCH_DESCRIPTORS: result (state, descriptors newly undeployable) *)
+Fixpoint prematch_loop (exec : N * N) (o : offer) (pm : list desc) (st : ost) : ost * list desc :=
   match pm with
-  | [] => (st, [], false)
+  | [] => (st, [])
   | d :: r =>
-    match try_desc exec o (s_rem st) d with
-    | TNoC | TNoClass | TNoR => (st, [d], false)
-    | TMk MkPanic => (st, [], true)
-    | TMk (MkEarly pr) => (mkOst pr (s_tasks st) (s_undecl st) (s_aband st), [], false)
-    | TMk (MkLate pr) => (mkOst pr (s_tasks st) true true, [], false)
-    | TMk (MkOk pr t) => prematch_loop exec o r (mkOst pr (s_tasks st ++ [t]) true (s_aband st))
+    match try_st exec o st d with
+    | TNoC | TNoClass | TNoR => (st, [d])
+    | TMk (MkFail pr) => (st_fail st pr, [])
+    | TMk (MkOk pr cpu mem t) => prematch_loop exec o r (st_ok st pr cpu mem t)
     end
   end.
 
 (* FOR_DESCRIPTORS over the descriptors in iteration order: result (state, descriptors not
-   launched in iteration order, panicked) *)
-Fixpoint still_loop (exec : N * N) (o : offer) (ds : list desc) (st : ost)
-  : ost * list desc * bool :=
+   launched in iteration order) *)
+Fixpoint still_loop (exec : N * N) (o : offer) (ds : list desc) (st : ost) : ost * list desc :=
   match ds with
-  | [] => (st, [], false)
+  | [] => (st, [])
   | d :: r =>
-    match try_desc exec o (s_rem st) d with
+    match try_st exec o st d with
     | TNoC | TNoClass | TNoR =>
-      let '(st', lft, p) := still_loop exec o r st in (st', d :: lft, p)
-    | TMk MkPanic => (st, d :: r, true)
-    | TMk (MkEarly pr) =>
-      let '(st', lft, p) := still_loop exec o r (mkOst pr (s_tasks st) (s_undecl st) (s_aband st)) in
-      (st', d :: lft, p)
-    | TMk (MkLate pr) =>
-      let '(st', lft, p) := still_loop exec o r (mkOst pr (s_tasks st) true true) in
-      (st', d :: lft, p)
-    | TMk (MkOk pr t) =>
-      still_loop exec o r (mkOst pr (s_tasks st ++ [t]) true (s_aband st))
+      let '(st', lft) := still_loop exec o r st in (st', d :: lft)
+    | TMk (MkFail pr) =>
+      let '(st', lft) := still_loop exec o r (st_fail st pr) in (st', d :: lft)
+    | TMk (MkOk pr cpu mem t) => still_loop exec o r (st_ok st pr cpu mem t)
     end
   end.
 
@@ -552,44 +577,33 @@ Record gst := mkGst {
   g_still : list desc;               (* descriptorsStillToDeploy *)
   g_undep : list desc;               (* descriptorsUndeployable *)
   g_decline : list N;                (* offerIDsToDecline *)
-  g_accepts : list (offer * list task);   (* ACCEPT calls, in processing order *)
-  g_aband : list N                   (* ghost: offers on which a task was abandoned late *)
+  g_accepts : list (offer * list task)    (* ACCEPT calls, in processing order *)
 }.
 
 Definition remove_id (x : N) (l : list N) : list N := filter (fun y => negb (N.eqb x y)) l.
 
-(* one offer goroutine, atomically (descriptorsMu); None = panic *)
+(* one offer goroutine, atomically (descriptorsMu) *)
 Definition process_offer (exec : N * N) (offers : list offer) (descs : list desc)
-           (g : gst) (o : offer) : option gst :=
+           (g : gst) (o : offer) : gst :=
   let pm := filter (fun d => is_pin_to (o_id o) (pin_of offers d)) descs in
-  let st0 := mkOst (o_ports o) [] false false in
-  let '(st1, und, p1) := prematch_loop exec o pm st0 in
-  if p1 then None else
+  let st0 := mkOst (o_ports o) (o_cpu o) (o_mem o) [] in
+  let '(st1, und) := prematch_loop exec o pm st0 in
   let undep := g_undep g ++ und in
-  let '(st2, still', p2) :=
+  let '(st2, still') :=
       match undep with
-      | [] => let '(s, lft, p) := still_loop exec o (rev (g_still g)) st1 in (s, rev lft, p)
-      | _ => (st1, g_still g, false)
+      | [] => let '(s, lft) := still_loop exec o (rev (g_still g)) st1 in (s, rev lft)
+      | _ => (st1, g_still g)
       end in
-  if p2 then None else
-  Some (mkGst still' undep
-              (if s_undecl st2 then remove_id (o_id o) (g_decline g) else g_decline g)
-              (g_accepts g ++ [(o, s_tasks st2)])
-              (if s_aband st2 then g_aband g ++ [o_id o] else g_aband g)).
+  mkGst still' undep
+        (match s_tasks st2 with [] => g_decline g | _ => remove_id (o_id o) (g_decline g) end)
+        (g_accepts g ++ [(o, s_tasks st2)]).
 
-Fixpoint process_all (exec : N * N) (offers : list offer) (descs : list desc)
-         (sched : list offer) (g : gst) : option gst :=
-  match sched with
-  | [] => Some g
-  | o :: r => match process_offer exec offers descs g o with
-              | Some g' => process_all exec offers descs r g'
-              | None => None
-              end
-  end.
+Definition process_all (exec : N * N) (offers : list offer) (descs : list desc)
+           (sched : list offer) (g : gst) : gst :=
+  fold_left (process_offer exec offers descs) sched g.
 
 Inductive outcome :=
-| Crash
-| Done (accepts : list (offer * list task)) (declined : list N) (abandoned : list N)
+| Done (accepts : list (offer * list task)) (declined : list N)
        (undeployed undeployable : list desc).
 
 (* resourceOffers: [offers] as received, [sched] the order in which the offer goroutines obtain
@@ -597,18 +611,16 @@ Inductive outcome :=
 Definition run_round (exec : N * N) (offers sched : list offer) (descs : list desc) : outcome :=
   let all_ids := map o_id offers in
   match descs with
-  | [] => Done [] all_ids [] [] []
+  | [] => Done [] all_ids [] []
   | _ =>
     let still := filter (fun d => is_pin_none (pin_of offers d)) descs in
     (* the pre-processing loop runs from the last descriptor to the first *)
     let nowhere := filter (fun d => is_pin_nowhere (pin_of offers d)) (rev descs) in
     match nowhere with
-    | _ :: _ => Done [] all_ids [] still nowhere
+    | _ :: _ => Done [] all_ids still nowhere
     | [] =>
-      match process_all exec offers descs sched (mkGst still [] all_ids [] []) with
-      | None => Crash
-      | Some g => Done (g_accepts g) (g_decline g) (g_aband g) (g_still g) (g_undep g)
-      end
+      let g := process_all exec offers descs sched (mkGst still [] all_ids []) in
+      Done (g_accepts g) (g_decline g) (g_still g) (g_undep g)
     end
   end.
 
@@ -660,15 +672,20 @@ Inductive round_obs :=
         (undeployed undeployable : list N).      (* descriptor indices, as the handler reports them *)
 
 Inductive c05_case :=
-| CSatisfy (a : attrs) (cts : list cstr) (obs : bool)
-| CMergeParent (own parent : list cstr) (obs : list cstr)
+| CSatisfy (a : attrs) (cts : list cstr) (obs : bool) (kept : bool)
+| CMergeParent (own parent : list cstr) (obs : list cstr) (kept : bool)
 | CParse (expr : str) (intended : option ranges) (obs : option ranges)
 | CRangeOp (op : N) (rs : ranges) (lo hi : N) (rs2 : ranges) (obs : option N * ranges)
 | CResSat (cpu mem : option N) (ports : portres) (wcpu wmem : N) (static : ranges) (nchans : N)
-          (obs : bool)
+          (obs : bool) (kept : bool)
 | CDesc (d : rawdesc) (obs_role obs_merged : list cstr)
         (obs_wants : option (N * N * ranges * list chan))
 | CRound (offers : list offer) (descs : list rawdesc) (exec_cpu exec_mem : N) (obs : round_obs).
+
+(* [kept]: the arguments handed to the function (and, for MergeParent, the spare capacity behind
+   the parent slice) were found unchanged after the call.  The model functions are values-in,
+   value-out; an implementation that writes into its arguments shares state between calls (the
+   class constraints are handed to MergeParent for every descriptor of that class). *)
 
 (* ---- permutations (schedules) ---- *)
 Fixpoint insert_all {A} (x : A) (l : list A) : list (list A) :=
@@ -692,8 +709,7 @@ Fixpoint find_accept (oid : N) (acc : list (offer * list task)) : option (list t
   end.
 Definition obs_of (offers : list offer) (out : outcome) : round_obs :=
   match out with
-  | Crash => RCrash
-  | Done acc dec _ still undep =>
+  | Done acc dec still undep =>
     RDone (map (fun o => option_map (map otask_of) (find_accept (o_id o) acc)) offers)
           (filter (fun i => memN i dec) (map o_id offers))
           (map d_id still) (map d_id undep)
@@ -733,12 +749,12 @@ Definition wants_of (d : rawdesc) : option (N * N * ranges * list chan) :=
 
 Definition corr05 (c : c05_case) : bool :=
   match c with
-  | CSatisfy a cts obs => Bool.eqb (satisfy a cts) obs
-  | CMergeParent own parent obs => list_eqb cstr_eqb (merge_parent own parent) obs
+  | CSatisfy a cts obs kept => Bool.eqb (satisfy a cts) obs && kept
+  | CMergeParent own parent obs kept => list_eqb cstr_eqb (merge_parent own parent) obs && kept
   | CParse e _ obs => option_eqb ranges_eqb (parse_ranges e) obs
   | CRangeOp op rs lo hi rs2 obs =>
     pair_eqb (option_eqb N.eqb) ranges_eqb (range_op op rs lo hi rs2) obs
-  | CResSat cpu mem pr wc wm st n obs => Bool.eqb (res_satisfy cpu mem pr wc wm st n) obs
+  | CResSat cpu mem pr wc wm st n obs kept => Bool.eqb (res_satisfy cpu mem pr wc wm st n) obs && kept
   | CDesc d orole omerged owants =>
     list_eqb cstr_eqb (get_constraints (rd_levels d)) orole &&
     list_eqb cstr_eqb (desc_constraints (rd_levels d) (option_map rk_cts (rd_class d))) omerged &&
@@ -771,7 +787,7 @@ Definition top_dup (a : str) (levels : list (list cstr)) : bool :=
   end.
 
 (* code of the first applicable constraint that [holds] rejects: 1, or 12 when its attribute is
-   named twice by the top-level role (known finding C05-e) *)
+   named twice by the top-level role (C05-e) *)
 Fixpoint first_unmet (holds : cstr -> bool) (levels : list (list cstr)) (l : list cstr) : N :=
   match l with
   | [] => 0
@@ -862,7 +878,7 @@ Definition picked_of (t : otask) : list N :=
   map snd (ot_dyn t) ++ match ot_handed t with Some p => [p] | None => [] end.
 
 (* pairwise distinctness on one agent: 5 two dynamic/control ports coincide; 3 a static range
-   meets a dynamic/control port or a static range of another task (known finding C05-c) *)
+   meets a dynamic/control port or a static range of another task (C05-c, repaired: regression guard) *)
 Fixpoint nodupN (l : list N) : bool :=
   match l with [] => true | x :: r => negb (memN x r) && nodupN r end.
 Fixpoint statics_disjoint (l : list ranges) : bool :=
@@ -891,7 +907,7 @@ Definition wants_mem (rds : list rawdesc) (t : otask) : N :=
 Definition sumN (l : list N) : N := fold_right N.add 0 l.
 
 (* what all tasks of one offer ask for does not exceed the offer: 4 = two or more tasks whose
-   template wants add up to more cpu or memory than offered (known finding C05-d); 13 = the
+   template wants add up to more cpu or memory than offered (C05-d, repaired: regression guard); 13 = the
    TaskInfo totals (template wants + executor share per task) exceed the offer although the
    template wants do not (known finding C05-h) *)
 Definition mon_offer_sum (o : offer) (rds : list rawdesc) (ts : list otask) : N :=
@@ -920,7 +936,7 @@ Definition tasks_of_obs (x : option (list otask)) : list otask :=
 
 (* decline discipline: 14 an offer with a launched task is declined; 15 an offer without a
    launched task is not declined; 16 the same when the offer's ports could have been used up by
-   the round's port picks (known finding C05-f: the offer was taken out of the decline set and the
+   the round's port picks (C05-f, repaired: regression guard; the offer was taken out of the decline set and the
    task then abandoned) *)
 Definition mon_decline (rds : list rawdesc) (declined : list N) (ox : offer * option (list otask)) : N :=
   let '(o, x) := ox in
@@ -932,7 +948,7 @@ Definition mon_decline (rds : list rawdesc) (declined : list N) (ox : offer * op
   else 0.
 
 (* the Ranges.Min panic needs an offer that cannot serve all picks of the round from the ports
-   above the cut-offs: 20 (known finding C05-g); any other crash: 21 *)
+   above the cut-offs: 20 (C05-g, repaired: regression guard); any other crash: 21 *)
 Definition crash_explicable (offers : list offer) (rds : list rawdesc) : bool :=
   existsb (fun o =>
              let ps := canon (opt_ports (o_ports o)) in
@@ -958,11 +974,14 @@ Definition mon_round (offers : list offer) (rds : list rawdesc) (obs : round_obs
 
 Definition mon05 (c : c05_case) : N :=
   match c with
-  | CSatisfy a cts obs =>
-    (* Satisfy said yes although an (Equals) constraint is not met *)
+  | CSatisfy a cts obs kept =>
+    (* Satisfy said yes although an (Equals) constraint is not met; 11: it wrote into its arguments *)
+    if negb kept then 11 else
     if obs && negb (sat_all a (filter is_equals cts)) then 1 else 0
-  | CMergeParent own parent obs =>
-    (* with a duplicate-free parent every attribute reads as: own (last entry) else parent *)
+  | CMergeParent own parent obs kept =>
+    (* 11: the call changed its receiver, the parent list or the spare capacity behind it;
+       with a duplicate-free parent every attribute reads as: own (last entry) else parent *)
+    if negb kept then 11 else
     if nodup_attrs parent then
       if forallb (fun a => option_eqb str_eqb (lookup_c a obs)
                                       (match level_def a own with
@@ -977,7 +996,8 @@ Definition mon05 (c : c05_case) : N :=
     | None => 0
     end
   | CRangeOp _ _ _ _ _ _ => 0
-  | CResSat cpu mem pr wc wm st n obs =>
+  | CResSat cpu mem pr wc wm st n obs kept =>
+    if negb kept then 11 else
     if obs then
       match cpu, mem, pr with
       | Some c, Some m, Some raw =>
@@ -1017,7 +1037,7 @@ Definition tag_round (offers : list offer) (rds : list rawdesc) (obs : round_obs
 
 Definition tag05 (c : c05_case) : N :=
   match c with
-  | CSatisfy a cts obs =>
+  | CSatisfy a cts obs _ =>
     100 + b2n obs + 2 * b2n (Nat.ltb 1 (length cts))
         + 4 * b2n (existsb (fun x => has_comma (snd x)) a)
         + 8 * b2n (negb (sat_all a (filter is_equals cts)))
@@ -1025,7 +1045,7 @@ Definition tag05 (c : c05_case) : N :=
                     | l :: _ => sat1 a l && negb (sat_all a (filter is_equals cts))
                     | [] => false end)
         + 32 * b2n (existsb (fun c => negb (is_equals c)) cts)
-  | CMergeParent own parent _ =>
+  | CMergeParent own parent _ _ =>
     200 + b2n (existsb (fun c => mem_str (c_attr c) (attrs_of parent)) own)
         + 2 * b2n (has_dup_attr own) + 4 * b2n (has_dup_attr parent)
   | CParse _ intended obs =>
@@ -1033,7 +1053,7 @@ Definition tag05 (c : c05_case) : N :=
         + 2 * b2n (match intended with Some _ => true | None => false end)
         + 4 * b2n (match obs with Some (_ :: _ :: _) => true | _ => false end)
   | CRangeOp op _ _ _ _ _ => 400 + op
-  | CResSat cpu mem pr wc wm st n obs =>
+  | CResSat cpu mem pr wc wm st n obs _ =>
     500 + b2n obs
         + 2 * b2n (match cpu with Some c => c <? wc | None => true end)
         + 4 * b2n (match mem with Some m => m <? wm | None => true end)
